@@ -5,7 +5,7 @@
 From Coq Require Import List Arith Bool Reals QArith Lia Lra ZArith.
 From TLV Require Import Base.Shape Base.PyList Base.Tensor Base.Ops Base.RSum Model.Metrics Proofs.MetricsProofs
   Proofs.MetricsProofs2 Proofs.MetricsProofs3 Proofs.MetricsProofs4 Proofs.MetricsProofs5 Proofs.MetricsProofs6
-  Proofs.MetricsProofs7 Proofs.MetricsProofs8 Proofs.MetricsProofs9 Proofs.MetricsProofs10.
+  Proofs.MetricsProofs7 Proofs.MetricsProofs8 Proofs.MetricsProofs9 Proofs.MetricsProofs10 Proofs.MetricsProofs11.
 Import ListNotations.
 Local Close Scope Q_scope.
 Local Open Scope R_scope.
@@ -436,6 +436,33 @@ Theorem C20_norm_axis_spec : forall (z : BinNums.Z) (nd : nat),
 Proof. exact norm_axis_spec. Qed.
 Print Assumptions C20_norm_axis_spec.
 
+(* ---------- when the entry points fail ---------- *)
+(* congruence_coefficient (its model) rejects EXACTLY: lists of different lengths, an empty list, a matrix whose number of
+   columns differs from that of the first one, a pair with different numbers of rows, a matrix with an all-zero column *)
+Theorem C20_congruence_rejects_iff : forall (absv : bool) (As Bs : list (mat R)) (nas nbs : list (list R)) (assign : mat R -> list nat),
+  congruence Rops absv As Bs nas nbs assign = Err <->
+  length As <> length Bs \/ As = [] \/
+  (exists M, In M (As ++ Bs) /\ ncols M <> ncols (hd [] As)) \/
+  (exists A B, In (A, B) (combine As Bs) /\ nrows A <> nrows B) \/
+  (exists M j, In M (As ++ Bs) /\ (j < ncols M)%nat /\ forall i, (i < nrows M)%nat -> mget Rops M i j = 0).
+Proof. intros. rewrite congruence_err_iff. apply cong_matrix_err_iff. Qed.
+Print Assumptions C20_congruence_rejects_iff.
+
+(* the numerical rank used by leverage_score_dist: 0 iff no singular value exceeds the cut-off max(S) * max(shape) * eps,
+   otherwise (index of the LAST singular value above the cut-off) + 1 -- whatever the order of the singular values *)
+Theorem C20_num_rank_spec : forall (sv : list R) (nr nc : nat) (eps : R),
+  let k := num_rank Rops sv nr nc eps in let c := list_max Rops sv * INR (Nat.max nr nc) * eps in
+  (k = 0%nat /\ forall i, (i < length sv)%nat -> nth i sv 0 <= c) \/
+  ((0 < k <= length sv)%nat /\ c < nth (k - 1) sv 0 /\ forall i, (k <= i < length sv)%nat -> nth i sv 0 <= c).
+Proof. exact num_rank_spec. Qed.
+Print Assumptions C20_num_rank_spec.
+
+Theorem C20_leverage_fails_iff : forall (U : mat R) (sv : list R) (nr nc : nat) (eps : R),
+  leverage_score_dist Rops U sv nr nc eps = Err <->
+  forall i, (i < length sv)%nat -> nth i sv 0 <= list_max Rops sv * INR (Nat.max nr nc) * eps.
+Proof. exact leverage_err_iff. Qed.
+Print Assumptions C20_leverage_fails_iff.
+
 (* ---------- non-vacuity ---------- *)
 (* the oracle contract is satisfiable: the brute force itself meets it *)
 Example C20_ex_lsa_contract : lsa_contract (fun C => best_perm Rops (nrows C) C).
@@ -515,4 +542,10 @@ Proof. vm_compute. split; reflexivity. Qed.
 Example C20_ex_RMSE_Q :
   RMSE Qops (fun x => if Qeq_bool x 9 then 3 else 0) None (mk [2]%nat [3; 3]) (mk [2]%nat [0; 0]) = mk [] [3] /\
   correlation Qops (fun x => if Qeq_bool x 1 then 1 else 0) None (mk [2]%nat [1; 3]) (mk [2]%nat [3; 1]) = mk [] [-1].
+Proof. vm_compute. split; reflexivity. Qed.
+
+(* rejected requests in the executed instance: a zero column; the all-zero matrix has no numerical rank *)
+Example C20_ex_rejects_Q :
+  congruence Qops true [[[3#1; 0]; [4#1; 0]]] [[[1; 1]; [1; 2]]] [[5#1; 0]] [[1; 2]] (fun _ => [0; 1]%nat) = Err /\
+  leverage_score_dist Qops [[1]; [0]] [0] 2 1 (1#1000) = Err.
 Proof. vm_compute. split; reflexivity. Qed.
